@@ -8,6 +8,8 @@ import PcbV.Model.Arrays
         g:<n>:<idx>          read an element
         s:<n>:<idx>:<v>      assign an element
         c                    CLEAR
+        l:<n>:<idx>:<srcs>:<c>:<fail>   LET n(idx) = sum of srcs + c   (srcs: `n.idx+n.idx…` or `_`; fail: errno or 0)
+        w:<n>:<idx>:<m>:<idx2>          SWAP n(idx), m(idx2)
         dump                 (pseudo-op) all arrays, by name id: n=dims=values in lexicographic subscript order
   reply: one token per op: `ok`, `v<int>`, `e<errno>`, `[n=dims=vals|…]`.
     idx <base> <idx> <dims>  → flat index and flat length
@@ -80,12 +82,46 @@ def dumpArr (st : State) (na : Nat × Arr) : String :=
 def dump (st : State) : String :=
   "[" ++ "|".intercalate ((st.arrs.foldr insertSorted []).map (dumpArr st)) ++ "]"
 
+def parseSrc (s : String) : Option (Nat × List Int) :=
+  match s.splitOn "." with
+  | [n, idx] => do
+      let n ← n.toNat?
+      let idx ← parseInts idx
+      pure (n, idx)
+  | _ => none
+
+def parseSrcs (s : String) : Option (List (Nat × List Int)) :=
+  if s == "_" then some [] else (s.splitOn "+").mapM parseSrc
+
+/-- the statements that are not single `Op`s -/
+def compound (st : State) (s : String) : Option (State × Option Nat) :=
+  match s.splitOn ":" with
+  | ["l", n, idx, srcs, c, fail] => do
+      let n ← n.toNat?
+      let idx ← parseInts idx
+      let srcs ← parseSrcs srcs
+      let c ← c.toInt?
+      let fail ← fail.toNat?
+      pure (letFrom st n idx srcs c (if fail = 0 then none else some fail))
+  | ["w", n, idx, m, idx2] => do
+      let n ← n.toNat?
+      let idx ← parseInts idx
+      let m ← m.toNat?
+      let idx2 ← parseInts idx2
+      pure (swap st n idx m idx2)
+  | _ => none
+
 def runOps (st : State) : List String → Option (List String)
   | [] => some []
   | "dump" :: rest => do
       let r ← runOps st rest
       pure (dump st :: r)
-  | s :: rest => do
+  | s :: rest =>
+    match compound st s with
+    | some (st', e) => do
+      let r ← runOps st' rest
+      pure (showOut (outOf e) :: r)
+    | none => do
       let op ← parseOp s
       let (st', o) := step st op
       let r ← runOps st' rest
